@@ -2,6 +2,7 @@
 #[verifier::allow(undeclared_external_trait)]
 pub mod stdspecs {
 use vstd::prelude::*;
+use vstd::std_specs::cmp::{OrdSpec, PartialOrdSpec};
 pub assume_specification [u128::leading_zeros] (a: u128) -> (r: u32)
     ensures r <= 128, a == 0 ==> r == 128, a != 0 ==> (r < 128 && (a as int) < vstd::arithmetic::power2::pow2((128 - r) as nat) && (a as int) >= vstd::arithmetic::power2::pow2((127 - r) as nat));
 pub assume_specification [i32::abs] (a: i32) -> (r: i32) requires a != i32::MIN ensures r == (if a < 0 { -a } else { a as int });
@@ -14,4 +15,6 @@ pub assume_specification<T, E, U, D: FnOnce(E) -> U + std::marker::Destruct, F: 
   ensures match r { Ok(t) => f.ensures((t,), o), Err(e) => d.ensures((e,), o) };
 pub assume_specification [u64::overflowing_sub] (a: u64, b: u64) -> (r:(u64, bool))
   ensures r.1 == (a < b), r.0 as int == (if a >= b { a - b } else { a - b + 0x1_0000_0000_0000_0000 });
+pub assume_specification<T: std::cmp::Ord + std::marker::Destruct> [std::cmp::min] (a: T, b: T) -> (r: T)
+    ensures T::obeys_cmp_spec() ==> r == (if a.cmp_spec(&b) == core::cmp::Ordering::Greater { b } else { a });
 }
